@@ -45,6 +45,14 @@ def level_cfg(rng, p_absent=0.55):
     return "absent" if rng.random() < p_absent else rng.choice(CONFIGS[1:])
 
 
+def mark_unsized(rng, spec):
+    """Some explicit predicates carry a relaxed bound too (`T: ?Sized + M<i>`): it belongs to the predicate."""
+    if rng.random() < 0.12:
+        for l in all_levels(spec):
+            if "pred" in l["cfg"] and rng.random() < 0.5:
+                l["unsz"] = True
+
+
 def gen_placement(rng, trait, alloc, allow_helper=True):
     """One placement (type, variant or field): the helper chain + per-trait + shared levels."""
     chain = []
@@ -67,7 +75,8 @@ def gen_spec(rng, trait=None, kind=None, co_ok=True):
     kind = kind or rng.choice(["struct", "enum"])
     for _ in range(50):
         alloc = Alloc()
-        spec = {"trait": trait, "kind": kind, "entry": rng.choice(["attr", "derive"]), "where": rng.random() < 0.3}
+        spec = {"trait": trait, "kind": kind, "entry": rng.choice(["attr", "derive"]), "where": rng.random() < 0.3,
+                "where_unsized": rng.random() < 0.1}
         spec["type"] = gen_placement(rng, trait, alloc)
         nv = 1 if kind == "struct" else rng.randint(1, 2)
         spec["variants"] = []
@@ -102,6 +111,7 @@ def gen_spec(rng, trait=None, kind=None, co_ok=True):
                     if pl is not None and rng.random() < 0.4:
                         pl["co"] = {"pos": rng.choice(["before", "before", "after"]), "m": alloc.next()}
         if alloc.n <= C.NMARK:
+            mark_unsized(rng, spec)
             return spec
     raise RuntimeError("could not fit markers")
 
@@ -112,7 +122,7 @@ def bound_text(level):
         return None
     parts = []
     if "pred" in c:
-        parts.append(f"T: {D}M<{m}>")
+        parts.append(f"T: ?::core::marker::Sized + {D}M<{m}>" if level.get("unsz") else f"T: {D}M<{m}>")
     if "type" in c:
         parts.append(f"{D}Wr<{m}, T>")
     if "dots" in c:
@@ -176,6 +186,9 @@ def render_item(spec, mode="cond", field_modes=None, name="Ty"):
     trait = spec["trait"]
     cot = spec["co"]["trait"] if spec.get("co") else None
     wh = f" where T: {D}Tr" if spec["where"] else ""
+    if spec.get("where_unsized"):
+        # a relaxed bound in the declared where-clause has to be carried over like any other predicate (E-exp only)
+        wh = f" where T: ?::core::marker::Sized + {D}Tr" if spec["where"] else " where T: ?::core::marker::Sized"
     tattrs = placement_attrs(spec["type"], trait)
     bodies = []
     for vi, v in enumerate(spec["variants"]):
@@ -261,6 +274,8 @@ def predicted_atoms(spec, contribs, norm_wr, norm_field):
     atoms = set()
     if spec["where"]:
         atoms.add(("T", "Tr"))
+    if spec.get("where_unsized") or any(l.get("unsz") for l in all_levels(spec) if "pred" in l["cfg"] and l["cfg"] != "absent" and ("pred", l["m"]) in contribs):
+        atoms.add(("T", "?Sized"))
     for kind, i in contribs:
         if kind == "pred":
             atoms.add(("T", f"M < {i} >"))
@@ -425,8 +440,22 @@ def check_probes(spec, contribs, events):
 
 
 def compilable(spec):
-    # the compiled form instantiates T with AllBut<i>, which does not implement ::dxrt::Tr
-    return not spec["where"]
+    # the compiled form instantiates T with AllBut<i>, which does not implement ::dxrt::Tr; the wrapper field types need T: Sized
+    return not spec["where"] and not spec.get("where_unsized") and not any(l.get("unsz") for l in all_levels(spec))
+
+
+def all_levels(spec):
+    out = []
+
+    def pl(p):
+        if p:
+            out.extend(p["chain"] + [p["this"], p["common"]])
+    pl(spec["type"])
+    for v in spec["variants"]:
+        pl(v["place"])
+        for f in v["fields"]:
+            pl(f["place"])
+    return out
 
 
 def run(rep, tier, rng):
@@ -601,6 +630,46 @@ def run(rep, tier, rng):
             rep.violation(sig, what + f" [{len(lst)} cases]", {"spec": c.meta["spec"], "code": c.code})
         else:
             rep.inconcl("did not reproduce in isolation: " + sig)
+    # ---- relaxed bounds (`?Sized`) written in the declared where-clause or in a bound(..) predicate must reach the impl ----
+    ucases = []
+    PH, BX = "::core::marker::PhantomData<T>", "::std::boxed::Box<T>"
+    for k, (tr, path) in enumerate((("Clone", PATH["Clone"]), ("Debug", PATH["Debug"]), ("PartialEq", PATH["PartialEq"]), ("Default", PATH["Default"]),
+                                    ("Hash", PATH["Hash"]), ("PartialOrd", PATH["PartialOrd"]))):
+        fty = PH if tr in ("Default",) or k % 2 else BX
+        for form, (decl, wh, arg) in enumerate((("<T>", " where T: ?::core::marker::Sized", tr),
+                                                 ("<T: ?::core::marker::Sized>", "", f"{tr}(bound(..))"),
+                                                 ("<T>", f" where T: ?::core::marker::Sized + {D}Tr", f"{tr}, bound(T: {D}Tr, ..)"))):
+            sup = "PartialEq, " if tr == "PartialOrd" else ""
+            head = f"#[::derive_ex::derive_ex({sup}{arg})]" if (k + form) % 2 else f"#[derive(::derive_ex::Ex)]\n#[derive_ex({sup}{arg})]"
+            inst = "str" if form < 2 else f"{D}YesU"
+            if form == 2 and tr in ("Clone", "Default"):
+                fty = PH            # Box<YesU> is not Clone
+            code = (f"{head}\npub struct Ty{decl}({fty}){wh};\npub fn run() {{\n"
+                    f'::dxrt::ev!("uprobe", "holds" => ::dxrt::probe_impl!(Ty<{inst}>: {path}));\n}}')
+            ucases.append(C.Case(f"u{len(ucases)}", code, {"what": f"{tr} form{form} {fty.split('::')[-1]}"}))
+    _, unotes = C.run_cases(ucases, "c04u", header=HEADER, batch_size=9)
+    for n in unotes:
+        rep.inconcl(n)
+    for c in ucases:
+        if c.status == "inconclusive":
+            continue
+        rep.evaluations += 1
+        rep.count("unsized_instantiation_probes")
+        if c.status == "compile_fail":
+            who, d = C.blame(c)
+            if who == "harness":
+                rep.inconcl(f"?Sized program does not compile outside derive_ex's output: {str(d['message'])[:120]}")
+            else:
+                rep.violation(f"C04|relaxed-bound|body-does-not-typecheck|{c.meta['what'].split()[0]}", f"{c.meta['what']}: {d['code']}: {(d['message'] or '')[:150]}\n{c.code[:300]}",
+                              {"spec": None, "code": c.code})
+            continue
+        ev = next((e for e in c.events if e.get("k") == "uprobe"), None)
+        if ev is None:
+            rep.inconcl("no probe event in " + c.name)
+        elif ev["holds"] is not True:
+            rep.violation(f"C04|relaxed-bound|impl-does-not-apply-to-unsized|{c.meta['what'].split()[0]}",
+                          f"{c.meta['what']}: a `?Sized` written by the user did not reach the impl (it does not apply to an unsized instantiation)\n{c.code[:300]}",
+                          {"spec": None, "code": c.code})
     s0 = specs[ncore + 1]
     rep.sample({"configuration": describe(s0), "source": render_item(s0)[0][:500], "derive_ex_args": render_item(s0)[1],
                 "predicted_contributions": sorted(map(str, resolve(s0)))})
@@ -639,6 +708,10 @@ def replay(rep, path):
     j = json.load(open(path))["replay"]
     s = j["spec"]
     c = C.compile_single(j["code"], header=HEADER)
+    if s is None:
+        bad = c.status == "compile_fail" or any(e.get("k") == "uprobe" and e["holds"] is not True for e in c.events)
+        print(f"VIOLATION property=C04 replay={path}" if bad else "replay: no violation")
+        return 1 if bad else 0
     if c.status == "compile_fail" or (c.status == "ok" and check_probes(s, resolve(s), c.events)[0]):
         print(f"VIOLATION property=C04 replay={path}")
         return 1
